@@ -33,6 +33,7 @@ struct USource {
 	mfmt::Entries ents;	// sorted by key; a key may repeat (copies in value order)
 	long live_iters = 0;
 	uint64_t next_calls = 0;
+	int freed = 0;	// calls of the source's free callback (exactly one, at mtbl_source_destroy)
 };
 mtbl_source *usource_make(USource *s);
 bool write_table(const std::string &path, const mfmt::Entries &e, int comp, size_t rint, size_t bsize);
@@ -55,6 +56,7 @@ struct MergeWorld {
 	std::map<Bytes, uint64_t> occ;
 	std::vector<std::pair<Bytes, Bytes>> all;
 	size_t shared_keys = 0;
+	size_t free_cb_wrong = 0;	// user-defined sources whose free callback did not run exactly once at destroy
 };
 bool mergeworld_build(const Plan &p, RunResult &res, MergeWorld &w, const std::string &dir);
 void mergeworld_destroy(MergeWorld &w);
